@@ -264,18 +264,7 @@ fn write_rules(e: &mut Engine, op: &Op, res: &OpRes, vi: Option<usize>, pre: &Pr
         } else if !res.is_ok() {
             // failed creation may have left a slot behind; C03 judges the structure, C04 lets the
             // one slot the call was creating pass: look for it by name in the directory listing
-            let loc = {
-                let n = &e.m.nodes[dn];
-                if n.is_root {
-                    if vol.fat32 {
-                        DirLoc::Cluster(vol.root_cluster)
-                    } else {
-                        DirLoc::Root16
-                    }
-                } else {
-                    DirLoc::Cluster(n.start)
-                }
-            };
+            let loc = e.dir_loc(vi, dn).unwrap_or(DirLoc::Root16);
             if let Some(slots) = post_walk.dir_slots.get(&loc) {
                 for s in slots.iter().filter(|s| s.name() == k) {
                     own.push((s.blk, s.off, 32));
